@@ -49,6 +49,11 @@ def gen_plan(prop, run_seed, tier):
                          n=w.choice([1, 2, 3, 10, 15, 10, 3, w.choice([33, 65, 101, 257, 300, 1001, 1025])]), seed=base_seed if k < 4 else w.randrange(2**32), n_chains=n_chains,
                          chain_index=w.randrange(n_chains), dirty=w.random() < 0.4, entropy=s.randrange(2**31),
                          global_draws=s.choice([0, 0, 3, 100])))
+        if k == 5 and s.random() < 0.5:
+            c5 = cfgs[-1]
+            total = c5["b"] + c5["n"] * c5["t"]
+            picks = {c5["b"] + c5["t"], c5["b"], 1, total, s.randint(1, max(1, total))}  # on a recording step, at the edges, anywhere
+            c5["fail_at"] = sorted(x for x in s.sample(sorted(picks), s.randint(1, min(2, len(picks)))) if x >= 1)
     # make sure two different chain indices and one exact repeat are present
     if n_chains >= 2:
         cfgs[1]["chain_index"] = (cfgs[0]["chain_index"] + 1) % n_chains
@@ -70,10 +75,13 @@ def _fakes():
     from batchie.core import MCMCModel, VIModel
 
     class FakeMCMC(MCMCModel):
-        def __init__(self, dirty):
+        def __init__(self, dirty, fail_at=()):
             self.events = []
             self.ordinal = 13 if dirty else 0
             self.rng_given = None
+            self.fail_at = set(fail_at)  # fault transient.model.step: these calls of step() fail (a failed Cholesky)
+            self.calls = 0
+            self.failed = 0
 
         def reset_model(self):
             self.events.append(("reset",))
@@ -85,6 +93,10 @@ def _fakes():
             self.fp_at_handover = fingerprint(rng)  # before the model consumes anything
 
         def step(self):
+            self.calls += 1
+            if self.calls in self.fail_at:
+                self.failed += 1
+                raise np.linalg.LinAlgError("Matrix is not positive definite")  # nothing advanced
             self.ordinal += 1
             self.events.append(("step", self.ordinal))
             if self.rng_given is not None:
@@ -191,15 +203,25 @@ def _harness(plan, log, stats, violation):
                 violation("C17.vi-schedule", "sample", f"VI model asked {calls}, holder has {len(holder.thetas)} of {c['n']}")
                 return
             continue
-        m = FakeMCMC(c["dirty"])
+        m = FakeMCMC(c["dirty"], c.get("fail_at") or ())
         if c["dirty"]:
             stats.fault("model.dirty")
         try:
             sampling.sample(model=m, results=holder, seed=c["seed"], n_chains=c["n_chains"], chain_index=c["chain_index"],
                             n_burnin=c["b"], thin=c["t"])
         except Exception as e:
+            if m.failed:
+                # the injected numerical failure reached the caller: sampling failed, nothing is claimed about it
+                stats.fault("transient.model.step")
+                stats.probe("sampling_failed_on_transient_fault")
+                log.ev("mcmc-failed", k, type(e).__name__)
+                continue
             violation("C17.sample-raised", f"mcmc:{type(e).__name__}", f"sample() raised {e!r} for {c}")
             return
+        if m.failed:
+            # sampling coped with the failure and reports success: the schedule below is owed in full
+            stats.fault("transient.model.step")
+            stats.probe("sampling_coped_with_transient_fault")
         stats.oracle_evals += 1
         log.ev("mcmc", k, c["b"], c["t"], c["n"], digest(m.events))
         if not _judge_history(m.events, c["b"], c["t"], c["n"], violation, "harness"):
